@@ -144,6 +144,11 @@ def gen_case(rng, tier):
              "init": rng.choice(["array", "array", "random"]),
              "yform": rng.choice(["list", "array"]),
              "um": rng.random() < 0.8, "uv": rng.random() < 0.5, "uw": rng.random() < 0.5}
+        if name == "gmm_map_fit":
+            # enrolment from a very short (or empty) utterance, and a raised occupancy threshold:
+            # possibly no component gathers enough evidence to move
+            o["short"] = rng.choice([None, None, None, 0, 1, 3])
+            o["mvu"] = rng.choice([None, None, None, 5.0, 1e6])
         if o["backend"] in ("da", "bag"):
             o["sched"] = gen_sched(rng)
             o["chunks_frac"] = rng.randint(1, 4)
@@ -383,6 +388,12 @@ def _call(pool, o, rec, label):
         kw = dict(max_fitting_steps=o["it"], update_means=o["um"], update_variances=o["uv"],
                   update_weights=o["uw"], convergence_threshold=None)
         if name == "gmm_map_fit":
+            if o.get("mvu") is not None:
+                kw["mean_var_update_threshold"] = o["mvu"]
+            if o.get("short") is not None:
+                X = X[:o["short"]]
+            rec.probe("map_adaptation_where_no_component_may_move",
+                      o.get("mvu") is not None or o.get("short") is not None)
             if o["flag"]:  # fixed adaptation ratios given as the caller's array
                 kw.update(map_relevance_factor=None, map_alpha=pool.alpha_arr)
             g = GMMMachine(case["c"], trainer="map", ubm=pool.prior, **kw)
